@@ -209,6 +209,16 @@ def scenarios(dialect):
         "Case": lambda p, t1, t2: p.call(p.call(p.new("Case"), "when", p.bin("==", fa(p, t1), 1), p.call(t1, "field", "b")), "else_", p.call(t1, "field", "c")),
         "Not": lambda p, t1, t2: p.un("not", p.bin("==", fa(p, t1), 1)),
         "Function": lambda p, t1, t2: p.new("fn.Coalesce", fa(p, t1), p.call(t1, "field", "b")),
+        "Negative": lambda p, t1, t2: p.un("neg", fa(p, t1)),
+        "All": lambda p, t1, t2: p.call(fa(p, t1), "all_"),
+        "AtTimezone": lambda p, t1, t2: p.new("AtTimezone", fa(p, t1), "UTC"),
+        "Values": lambda p, t1, t2: p.new("Values", fa(p, t1)),
+        "PeriodCriterion": lambda p, t1, t2: p.call(fa(p, t1), "from_to", p.call(t1, "field", "b"), 5),
+        "Extract": lambda p, t1, t2: p.new("fn.Extract", _E("DatePart", "year"), fa(p, t1)),
+        "AggregateFunction": lambda p, t1, t2: p.call(p.new("fn.Sum", fa(p, t1)), "filter", p.bin(">", p.call(t1, "field", "b"), 0)),
+        "AnalyticFunction": lambda p, t1, t2: p.call(p.call(p.new("an.Sum", fa(p, t1)), "over", p.call(t1, "field", "b")), "orderby", p.call(t1, "field", "c")),
+        "AliasedQuery": lambda p, t1, t2: p.item(p.attr(p.call(sel(p, t1, t2), "with_", p.call(p.call(Q, "from_", t1), "select", fa(p, t1)), "c1"), "_with"), 0),
+        "_SetOperation": lambda p, t1, t2: p.call(p.call(p.call(Q, "from_", t1), "select", fa(p, t1)), "union", p.call(p.call(Q, "from_", t1), "select", p.call(t1, "field", "b"))),
         "NestedCriterion": lambda p, t1, t2: p.new("NestedCriterion", _E("Equality", "eq"), _E("Boolean", "and_"), fa(p, t1), p.call(t1, "field", "b"), p.call(t1, "field", "c")),
     }
     for cls, mk in makers.items():
